@@ -125,3 +125,73 @@ func verifH_C18_event_off() {
 	verifAssert(len(oy) == 1 && oy[0] == other, "handlers of another event are untouched")
 	verifReach("end")
 }
+
+// C18_event_fire: occurrences of an event that overlap: the handler list handed to an occurrence still being dispatched
+// is not changed by a later registration or a later occurrence; every On handler is in every list, every Once handler
+// in exactly one (n On handlers for every n up to the bound: the slice capacities 1, 2, 4, 8 are all crossed).
+//
+//verif:unwind 16
+func verifH_C18_event_fire() {
+	N := 4
+	if verifThorough() {
+		N = 9
+	}
+	s := newEventHandlerStore()
+	n := verifChoose(0, N)
+	for i := 0; i < n; i++ {
+		s.on("x", verifEH(0))
+	}
+	k1, k2 := verifChoose(0, 2), verifChoose(0, 2)
+	for i := 0; i < k1; i++ {
+		s.once("x", verifEH(1))
+	}
+	first := s.getAll("x") // occurrence 1 is being dispatched from this list ...
+	snap := append([]*eventHandler(nil), first...)
+	for i := 0; i < k2; i++ {
+		s.once("x", verifEH(2)) // ... while new Once handlers are registered ...
+	}
+	second := s.getAll("x") // ... and occurrence 2 arrives
+	third := s.getAll("x")
+	same := len(first) == len(snap)
+	for i := 0; same && i < len(snap); i++ {
+		same = first[i] == snap[i]
+	}
+	verifAssert(same, "the handler list of an occurrence in flight is not changed by later registrations or occurrences")
+	verifAssert(verifCountEH(first, 0) == n && verifCountEH(first, 1) == k1 && verifCountEH(first, 2) == 0, "occurrence 1 reaches the On handlers and the Once handlers registered before it")
+	verifAssert(verifCountEH(second, 0) == n && verifCountEH(second, 1) == 0 && verifCountEH(second, 2) == k2, "occurrence 2 reaches the On handlers and only the Once handlers registered since")
+	verifAssert(verifCountEH(third, 0) == n && len(third) == n, "occurrence 3 reaches the On handlers only")
+	verifReach("end")
+}
+
+// C18_model_inflight: the same for the generic lifecycle handler store (OnConnect, OnDisconnect, ...).
+//
+//verif:unwind 16
+func verifH_C18_model_inflight() {
+	N := 4
+	if verifThorough() {
+		N = 9
+	}
+	s := newHandlerStore[int]()
+	n := verifChoose(0, N)
+	for i := 0; i < n; i++ {
+		s.on(0)
+	}
+	k1, k2 := verifChoose(0, 2), verifChoose(0, 2)
+	for i := 0; i < k1; i++ {
+		s.once(1)
+	}
+	first := s.getAll()
+	snap := append([]int(nil), first...)
+	for i := 0; i < k2; i++ {
+		s.once(2)
+	}
+	second := s.getAll()
+	same := len(first) == len(snap)
+	for i := 0; same && i < len(snap); i++ {
+		same = first[i] == snap[i]
+	}
+	verifAssert(same, "the handler list of an occurrence in flight is not changed by later registrations or occurrences")
+	verifAssert(verifCount(first, 0) == n && verifCount(first, 1) == k1 && verifCount(first, 2) == 0, "occurrence 1 reaches the On handlers and the Once handlers registered before it")
+	verifAssert(verifCount(second, 0) == n && verifCount(second, 1) == 0 && verifCount(second, 2) == k2, "occurrence 2 reaches the On handlers and only the Once handlers registered since")
+	verifReach("end")
+}
